@@ -10,6 +10,9 @@
 typedef __int128 i128;
 typedef unsigned __int128 u128;
 
+#ifdef NATIVE_REPLAY
+#define __CPROVER_bitvector_native_unsupported 1
+#endif
 uint64_t nondet_u64(void);
 int64_t nondet_i64(void);
 uint32_t nondet_u32(void);
